@@ -50,8 +50,8 @@ def cases(ctx):
                         yield {"kind": "special", "flavour": flav, "mnemonic": m, "slot": slot, "special": special,
                                "base": codec.rand_values(rng, isa.TABLE[flav][m][1]), "name": rng.choice(["delta", "t0", "angle_1", "n"]),
                                "with_lineno": k % 3 == 0}
-    for m, slot in (("set", 1), ("jmp", 0), ("beq", 2), ("bez", 1)):
-        for special in ("true", "false"):
+    for m, slot in (("set", 1), ("jmp", 0), ("beq", 2), ("bez", 1), ("rot_x", 1), ("rot_z", 2)):
+        for special in ("true", "false", "carrier"):
             k += 1
             if ctx.mine(k):
                 yield {"kind": "special", "flavour": "vanilla", "mnemonic": m, "slot": slot, "special": special,
@@ -215,7 +215,24 @@ def _special(ctx, case):
             return o
         ops = [b(o) for o in ops]
     else:
-        ops[slot] = Template(case["name"]) if case["special"] == "template" else Immediate(case["special"] == "true")
+        if case["special"] == "carrier":
+            # an immediate whose value is an int subclass carrying its value in __int__ / __str__ (a resolved Future used as a number)
+            class Carrier(int):
+                def __new__(cls, v):
+                    o = int.__new__(cls, 0)
+                    o.v = v
+                    return o
+                __int__ = lambda self: self.v
+                __eq__ = lambda self, o: self.v == o
+                __hash__ = lambda self: hash(self.v)
+                __le__ = lambda self, o: self.v <= int(o)
+                __ge__ = lambda self, o: self.v >= int(o)
+                __lt__ = lambda self, o: self.v < int(o)
+                __gt__ = lambda self, o: self.v > int(o)
+                __str__ = __repr__ = lambda self: str(self.v)
+            ops[slot] = Immediate(Carrier(3))
+        else:
+            ops[slot] = Template(case["name"]) if case["special"] == "template" else Immediate(case["special"] == "true")
     try:
         instr = fobj.get_instr_by_name(m).from_operands(ops)
     except Exception:
